@@ -417,6 +417,10 @@ def conn_types():
         # the client went away before the instant, the handler (handler_cancellation off) is still at work: it is a
         # request being handled all the same - may finish within T, is cancelled by 2T
         t.append({"type": "run", "beh": beh, "late": None, "gone": True})
+    # the client is slow to read: the response of a request that finishes within the timeout is still in the server's
+    # write buffer when the shutdown sequence ends - closing must flush it, not drop it
+    t.append({"type": "run", "beh": "before", "late": None, "slow": True})
+    t.append({"type": "run", "beh": "soon", "late": None, "slow": True})
     t.append({"type": "body", "late": None})  # handler waits for a body whose rest never arrives
     t.append({"type": "body", "late": "d"})  # ... whose rest arrives during the drain
     return t
@@ -601,6 +605,8 @@ def run_schedule(sched, rec, judge=True):
     for c in conns:
         if c.spec.get("gone"):
             c.client.transport.close()
+        if c.spec.get("slow"):
+            c.pipe.b.stalled = True  # the client stops reading what the server writes
     loop.advance(AGE / 2)
     # requests whose processing the instant cuts at an iteration boundary: largest k first
     stepc = sorted([c for c in conns if c.spec["type"] in ("step", "run0")], key=lambda c: -_k(c.spec))
@@ -661,6 +667,11 @@ def run_schedule(sched, rec, judge=True):
                     c.reqs[-1]["late_at"] = loop.time() - t0
     bound = t0 + 2 * T + (2 if T >= 5 else 0)  # two timeout phases, each deadline possibly rounded up to a whole second
     loop.run(max_iters=500000, until=task.done, time_limit=bound + osd + 3 * T + 5)
+    loop.settle()
+    for c in conns:
+        if c.spec.get("slow"):
+            c.pipe.b.stalled = False  # the slow client finally reads: whatever was flushed before the close arrives now
+            c.pipe.b._schedule_pump()
     loop.settle()
     obs = {
         "t0": t0,
@@ -826,7 +837,7 @@ def judge_drain(sched, conns, obs, rec):
                 else:
                     v.append(("drain:handler-not-cancelled-by-2x-timeout", f"connection {c.idx} ({ty}): handler {rid} neither finished nor was cancelled by t0+{bound - t0 + obs['osd'] + 3 * T + 5:.0f}"))
                     outcomes.append("B:alive")
-        sig.append((ty, c.spec.get("beh"), c.spec.get("late"), c.spec.get("k"), bool(c.spec.get("gone")), tuple(outcomes), bool(c.closing_after_settle)))
+        sig.append((ty, c.spec.get("beh"), c.spec.get("late"), c.spec.get("k"), bool(c.spec.get("gone")), bool(c.spec.get("slow")), tuple(outcomes), bool(c.closing_after_settle)))
     rec.sig("b-phase-outcome-vectors", (T, sched["osd"], sorted(map(repr, sig))))
     return v
 
